@@ -18,7 +18,8 @@ variable {A : Type}
     cell per column, either constructor (`IterData` / `CSVData`), and any chain `ops` of filters,
     column lists, child selections, integer and slice keys, in any order and of any length, that the
     by-name reference accepts (`refRun`: every selected name is among the currently selected
-    columns, every clause reads `id.column OP id.column | literal`).  Then every `__getitem__` of
+    columns, every clause reads `id.column OP id.column | literal` — a clause is accepted on every
+    layout, also after a child selection).  Then every `__getitem__` of
     the chain succeeds, and iterating the resulting stream yields exactly: the source rows filtered
     by all the clauses, the column/child selections applied by name in order, then the slices in
     order (`refEval`). -/
@@ -56,12 +57,16 @@ theorem C17_prefixes (cmp : Op → A → A → Bool) (lit : List Char → Option
     by rw [← hsrc1]; exact iter_of_rel hrel (by rw [hsrc1]; exact hsrc),
     by rw [← hsrc2]; exact iter_of_rel hrel' (by rw [hsrc2]; exact hsrc)⟩
 
-/-- **Each step returns a new stream that only extends the recorded pipeline**: the source rows
-    are shared, and the filter, map and slice lists of the result have those of the operand as
-    prefixes (`__getitem__` works on `copy.copy(self)` and appends). -/
+/-- **Each step returns a new stream that only extends the recorded pipeline**: the source rows and
+    the template of the source rows (`root`) are shared; the filter and slice lists of the result have
+    those of the operand as prefixes; the map list of the operand is kept as a whole, extended by one
+    entry at the back (a selection: it acts on the items produced so far) or at the front (the map of
+    a clause: it acts on the source row) (`__getitem__` works on `copy.copy(self)`). -/
 theorem C17_pure (lit : List Char → Option A) (s s' : Stream A) (k : Key)
     (h : getitem lit s k = .ok s') :
-    s'.src = s.src ∧ s.ifilter <+: s'.ifilter ∧ s.imap <+: s'.imap ∧ s.islice <+: s'.islice := by
+    s'.src = s.src ∧ s'.root = s.root ∧ s.ifilter <+: s'.ifilter ∧
+      (s.imap <+: s'.imap ∨ s.imap <:+ s'.imap) ∧ s'.imap.length ≤ s.imap.length + 1 ∧
+      s.islice <+: s'.islice := by
   cases k with
   | str key =>
     simp only [getitem] at h
@@ -74,7 +79,7 @@ theorem C17_pure (lit : List Char → Option A) (s s' : Stream A) (k : Key)
       | some col =>
         simp [hi] at h
         subst h
-        exact ⟨rfl, List.prefix_refl _, List.prefix_append _ _, List.prefix_refl _⟩
+        exact ⟨rfl, rfl, List.prefix_refl _, Or.inl (List.prefix_append _ _), by simp, List.prefix_refl _⟩
   | list keys =>
     simp only [getitem] at h
     cases ht : s.template with
@@ -86,24 +91,24 @@ theorem C17_pure (lit : List Char → Option A) (s s' : Stream A) (k : Key)
       | some cols =>
         simp [hi] at h
         subst h
-        exact ⟨rfl, List.prefix_refl _, List.prefix_append _ _, List.prefix_refl _⟩
+        exact ⟨rfl, rfl, List.prefix_refl _, Or.inl (List.prefix_append _ _), by simp, List.prefix_refl _⟩
   | int i =>
     simp only [getitem, Except.ok.injEq] at h
     subst h
-    exact ⟨rfl, List.prefix_refl _, List.prefix_refl _, List.prefix_append _ _⟩
+    exact ⟨rfl, rfl, List.prefix_refl _, Or.inl (List.prefix_refl _), by simp, List.prefix_append _ _⟩
   | slice sl =>
     simp only [getitem, Except.ok.injEq] at h
     subst h
-    exact ⟨rfl, List.prefix_refl _, List.prefix_refl _, List.prefix_append _ _⟩
+    exact ⟨rfl, rfl, List.prefix_refl _, Or.inl (List.prefix_refl _), by simp, List.prefix_append _ _⟩
   | cond c =>
     simp only [getitem] at h
-    cases hb : buildFilter lit c s.template with
+    cases hb : buildFilter lit c s.root with
     | error e => simp [hb, bind, Except.bind] at h
     | ok p =>
       obtain ⟨f, m⟩ := p
       simp [hb, bind, Except.bind, pure, Except.pure] at h
       subst h
-      exact ⟨rfl, List.prefix_append _ _, List.prefix_append _ _, List.prefix_refl _⟩
+      exact ⟨rfl, rfl, List.prefix_append _ _, Or.inr (List.suffix_cons _ _), by simp, List.prefix_refl _⟩
 
 /-- **Iteration is `slices ∘ maps ∘ filters` over the source**, for every stream whatsoever
     (also one not built by `chain`): the pipeline normal form of `__iter__`. -/
@@ -140,9 +145,20 @@ example : exAll.Nodup ∧ (∀ r ∈ exSrc, r.length = exAll.length)
     ∧ listingIs (chain litVal (mkCSVData exSrc ⟨['s'], exAll, exAll⟩) exOps) [.cell (.num 48)] = true := by
   refine ⟨by decide, by decide, by decide, by decide, by decide⟩
 
-/-- `C17_pure` is not vacuous: a filter step succeeds and extends the pipeline -/
+/-- a clause after a child selection (`D["i"][s.t="a"][s.f>1]`) is in the domain too: it is resolved
+    against the source rows and filters them -/
+example : (refRun litVal ['s'] exAll ⟨[], .table exAll, []⟩
+      [.str ['i'], .cond ⟨['s', '.', 't'], .eq, ['"', 'a', '"']⟩, .cond ⟨['s', '.', 'f'], .gt, ['1']⟩]).isSome = true
+    ∧ listingIs (chain litVal (mkCSVData exSrc ⟨['s'], exAll, exAll⟩)
+      [.str ['i'], .cond ⟨['s', '.', 't'], .eq, ['"', 'a', '"']⟩, .cond ⟨['s', '.', 'f'], .gt, ['1']⟩])
+        [.cell (.num 48)] = true := by
+  refine ⟨by decide, by decide⟩
+
+/-- `C17_pure` is not vacuous: a filter step succeeds, extends the filters at the back and the maps at
+    the front -/
 example : ∃ s', getitem litVal (mkIterData exSrc ⟨['s'], exAll, exAll⟩)
-    (.cond ⟨['s', '.', 'i'], .gt, ['1']⟩) = .ok s' ∧ s'.ifilter.length = 1 := ⟨_, rfl, rfl⟩
+    (.cond ⟨['s', '.', 'i'], .gt, ['1']⟩) = .ok s' ∧ s'.ifilter.length = 1 ∧
+      s'.imap = [.ident, .fixNested 3] := ⟨_, rfl, rfl, rfl⟩
 
 end NonVacuity
 
@@ -152,75 +168,59 @@ end NonVacuity
 section Nested
 open Pydap.IterNest
 
-/-- The property on tables with one nested sequence level, parametrised by the reference used:
-    `strict = false` is the property as stated (clauses are accepted wherever the items are records: on
-    the outer table and on an inner table reached by a child selection); `strict = true` accepts
-    clauses only while the template is the outer sequence. -/
-def NestedNormalForm (strict : Bool) : Prop :=
-  ∀ (A : Type) (cmp : Op → A → A → Bool) (lit : List Char → Option A)
-    (id : Name) (hdr : Hdr), wsHdr hdr = true →
-    ∀ (src : List (List (NCell A))), (∀ r ∈ src, wsRow hdr r = true) →
-    ∀ (ops : List Key) (st : IterNest.Ref A),
-      IterNest.refRun strict lit id hdr ⟨[], [], .table hdr.names, []⟩ ops = some st →
-      ∃ s, IterNest.chain lit (IterNest.mkIterData src id hdr) ops = .ok s
-        ∧ s.src = src
-        ∧ IterNest.iter cmp s = IterNest.refEval cmp hdr st src
-
-/-- **Normal form with one nested level (partial: no clause after a child selection into the nested
-    sequence).**  Any header with distinct names whose children are base columns or sequences of
-    base columns, any well-shaped source, any chain of clauses (on outer base columns, or on the
-    columns of a nested sequence: `id.n.x OP id.n.y | literal`), column lists, child selections (into
-    base children, into a nested sequence, and then into its columns), integer and slice keys that
-    the by-name reference accepts: every `__getitem__` succeeds and iteration yields the source rows
-    filtered by the outer clauses, the records of each nested sequence filtered by the clauses on it,
-    the selections applied by name in order, then the slices in order. -/
-theorem C17_nested_normal_form_partial : NestedNormalForm true := by
-  intro A cmp lit id hdr hh src hsrc ops st href
+/-- **Normal form with one nested level, every program.**  Any header with distinct names whose
+    children are base columns or sequences of base columns, any well-shaped source, any chain — in any
+    order and of any length — of clauses (on outer base columns, or on the columns of a nested sequence:
+    `id.n.x OP id.n.y | literal`), column lists, child selections (into base children, into a nested
+    sequence, and then into its columns), integer and slice keys that the by-name reference accepts
+    (`refRun`: every selected name is among the currently selected ones; a clause is accepted on EVERY
+    layout, also after a child selection into the nested sequence or into a column): every `__getitem__`
+    succeeds and iteration yields the source rows filtered by the outer clauses, the records of each
+    nested sequence filtered by the clauses on it, the selections applied by name in order, then the
+    slices in order. -/
+theorem C17_nested_normal_form (cmp : Op → A → A → Bool) (lit : List Char → Option A)
+    (id : Name) (hdr : Hdr) (hh : wsHdr hdr = true)
+    (src : List (List (NCell A))) (hsrc : ∀ r ∈ src, wsRow hdr r = true)
+    (ops : List Key) (st : IterNest.Ref A)
+    (href : IterNest.refRun lit id hdr ⟨[], [], .table hdr.names, []⟩ ops = some st) :
+    ∃ s, IterNest.chain lit (IterNest.mkIterData src id hdr) ops = .ok s
+      ∧ s.src = src
+      ∧ IterNest.iter cmp s = IterNest.refEval cmp hdr st src := by
   obtain ⟨s, h1, hrel, hs⟩ := IterNest.chain_sim hh ops _ _ st (IterNest.rel_init cmp id hdr hh src) href
   have hsrc' : s.src = src := by rw [hs]; rfl
   exact ⟨s, h1, hsrc', by rw [← hsrc']; exact IterNest.iter_of_rel hrel (by rw [hsrc']; exact hsrc)⟩
 
-def okListing (r : Except Err (List (IterNest.Item TableVal.Val))) (expect : List (IterNest.Item TableVal.Val)) : Bool :=
-  match r with
-  | .ok l => l == expect
-  | .error _ => false
-
-open Pydap.TableVal in
-/-- **The full statement fails on the code as it is** (finding C17.filter_after_inner_child):
-    `D["n"][CE("s.n.x>10")]` over `s{i, n{x, y}}` evaluates the clause on the outer source rows with the
-    index of `x` (so it compares `i`) and lists nothing, where the normal form lists the records of `n`
-    with `x > 10` for every outer row (what `D[CE("s.n.x>10")]["n"]` lists). -/
-theorem C17_nested_normal_form_refuted : ¬ NestedNormalForm false := by
-  intro h
-  obtain ⟨s, h1, _, h3⟩ := h Val cmpVal litVal ['s'] [(['i'], none), (['n'], some [['x'], ['y']])] (by decide)
-    [[.base (.num 16), .seq [[.num 160, .str ['a']], [.num 176, .str ['b']]]],
-     [.base (.num 32), .seq [[.num 480, .str ['c']]]]]
-    (by decide)
-    [.str ['n'], .cond ⟨['s', '.', 'n', '.', 'x'], .gt, ['1', '0']⟩]
-    ⟨[], [(['n'], ⟨['x'], .gt, .const (.num 160)⟩)], .innerTable ['n'] [['x'], ['y']], []⟩
-    rfl
-  have hs : (IterNest.chain litVal (IterNest.mkIterData
-      [[.base (.num 16), .seq [[.num 160, .str ['a']], [.num 176, .str ['b']]]],
-       [.base (.num 32), .seq [[.num 480, .str ['c']]]]] ['s'] [(['i'], none), (['n'], some [['x'], ['y']])])
-      [.str ['n'], .cond ⟨['s', '.', 'n', '.', 'x'], .gt, ['1', '0']⟩] >>= fun s => IterNest.iter cmpVal s)
-      = .ok [.inner [[.num 176, .str ['b']]], .inner [[.num 480, .str ['c']]]] := by
-    rw [h1]
-    exact h3
-  have hyes : okListing (IterNest.chain litVal (IterNest.mkIterData
-      [[.base (.num 16), .seq [[.num 160, .str ['a']], [.num 176, .str ['b']]]],
-       [.base (.num 32), .seq [[.num 480, .str ['c']]]]] ['s'] [(['i'], none), (['n'], some [['x'], ['y']])])
-      [.str ['n'], .cond ⟨['s', '.', 'n', '.', 'x'], .gt, ['1', '0']⟩] >>= fun s => IterNest.iter cmpVal s)
-      [.inner [[.num 176, .str ['b']]], .inner [[.num 480, .str ['c']]]] = true := by
-    rw [hs]; decide
-  exact absurd hyes (by decide)
+/-- **Intermediate streams (nested).**  Every prefix of a program lists the reference rows of that
+    prefix, whatever steps follow — in particular a clause applied later (whose map is recorded in
+    FRONT of the maps of the operand) leaves the operand's listing unchanged. -/
+theorem C17_nested_prefixes (cmp : Op → A → A → Bool) (lit : List Char → Option A)
+    (id : Name) (hdr : Hdr) (hh : wsHdr hdr = true)
+    (src : List (List (NCell A))) (hsrc : ∀ r ∈ src, wsRow hdr r = true)
+    (ops more : List Key) (st st' : IterNest.Ref A)
+    (href : IterNest.refRun lit id hdr ⟨[], [], .table hdr.names, []⟩ ops = some st)
+    (hmore : IterNest.refRun lit id hdr st more = some st') :
+    ∃ s s', IterNest.chain lit (IterNest.mkIterData src id hdr) ops = .ok s
+      ∧ IterNest.chain lit s more = .ok s'
+      ∧ IterNest.iter cmp s = IterNest.refEval cmp hdr st src
+      ∧ IterNest.iter cmp s' = IterNest.refEval cmp hdr st' src := by
+  obtain ⟨s, h1, hrel, hs⟩ := IterNest.chain_sim hh ops _ _ st (IterNest.rel_init cmp id hdr hh src) href
+  obtain ⟨s', h2, hrel', hs'⟩ := IterNest.chain_sim hh more s st st' hrel hmore
+  have hsrc1 : s.src = src := by rw [hs]; rfl
+  have hsrc2 : s'.src = src := by rw [hs', hsrc1]
+  exact ⟨s, s', h1, h2,
+    by rw [← hsrc1]; exact IterNest.iter_of_rel hrel (by rw [hsrc1]; exact hsrc),
+    by rw [← hsrc2]; exact IterNest.iter_of_rel hrel' (by rw [hsrc2]; exact hsrc)⟩
 
 /-- **Each step returns a new stream that only extends the recorded pipeline**, nested tables
-    included: the source rows, the sequence id and the header are shared, the filter, map and slice
-    lists of the result have those of the operand as prefixes. -/
+    included: the source rows, the sequence id and the header (the template of the source rows) are
+    shared, the filter and slice lists of the result have those of the operand as prefixes, the map
+    list of the operand is kept as a whole and extended by at most one entry, at the back (a selection)
+    or at the front (the map of a clause). -/
 theorem C17_nested_pure (lit : List Char → Option A) (s s' : IterNest.Stream A) (k : Key)
     (h : IterNest.getitem lit s k = .ok s') :
     s'.src = s.src ∧ s'.id = s.id ∧ s'.hdr = s.hdr ∧
-      s.ifilter <+: s'.ifilter ∧ s.imap <+: s'.imap ∧ s.islice <+: s'.islice := by
+      s.ifilter <+: s'.ifilter ∧ (s.imap <+: s'.imap ∨ s.imap <:+ s'.imap) ∧
+      s'.imap.length ≤ s.imap.length + 1 ∧ s.islice <+: s'.islice := by
   cases k with
   | str key =>
     simp only [IterNest.getitem] at h
@@ -232,12 +232,12 @@ theorem C17_nested_pure (lit : List Char → Option A) (s s' : IterNest.Stream A
         · cases h
         · simp only [Except.ok.injEq] at h
           subst h
-          exact ⟨rfl, rfl, rfl, List.prefix_refl _, List.prefix_append _ _, List.prefix_refl _⟩
+          exact ⟨rfl, rfl, rfl, List.prefix_refl _, Or.inl (List.prefix_append _ _), by simp, List.prefix_refl _⟩
     · split at h
       · cases h
       · simp only [Except.ok.injEq] at h
         subst h
-        exact ⟨rfl, rfl, rfl, List.prefix_refl _, List.prefix_append _ _, List.prefix_refl _⟩
+        exact ⟨rfl, rfl, rfl, List.prefix_refl _, Or.inl (List.prefix_append _ _), by simp, List.prefix_refl _⟩
   | list keys =>
     simp only [IterNest.getitem] at h
     split at h
@@ -246,28 +246,28 @@ theorem C17_nested_pure (lit : List Char → Option A) (s s' : IterNest.Stream A
       · cases h
       · simp only [Except.ok.injEq] at h
         subst h
-        exact ⟨rfl, rfl, rfl, List.prefix_refl _, List.prefix_append _ _, List.prefix_refl _⟩
+        exact ⟨rfl, rfl, rfl, List.prefix_refl _, Or.inl (List.prefix_append _ _), by simp, List.prefix_refl _⟩
     · split at h
       · cases h
       · simp only [Except.ok.injEq] at h
         subst h
-        exact ⟨rfl, rfl, rfl, List.prefix_refl _, List.prefix_append _ _, List.prefix_refl _⟩
+        exact ⟨rfl, rfl, rfl, List.prefix_refl _, Or.inl (List.prefix_append _ _), by simp, List.prefix_refl _⟩
   | int i =>
     simp only [IterNest.getitem, Except.ok.injEq] at h
     subst h
-    exact ⟨rfl, rfl, rfl, List.prefix_refl _, List.prefix_refl _, List.prefix_append _ _⟩
+    exact ⟨rfl, rfl, rfl, List.prefix_refl _, Or.inl (List.prefix_refl _), by simp, List.prefix_append _ _⟩
   | slice sl =>
     simp only [IterNest.getitem, Except.ok.injEq] at h
     subst h
-    exact ⟨rfl, rfl, rfl, List.prefix_refl _, List.prefix_refl _, List.prefix_append _ _⟩
+    exact ⟨rfl, rfl, rfl, List.prefix_refl _, Or.inl (List.prefix_refl _), by simp, List.prefix_append _ _⟩
   | cond c =>
     simp only [IterNest.getitem] at h
-    cases hb : IterNest.buildFilter lit s.id s.hdr c s.template with
+    cases hb : IterNest.buildFilter lit s.id s.hdr c with
     | error e => simp [hb, bind, Except.bind] at h
     | ok p =>
       simp [hb, bind, Except.bind, pure, Except.pure] at h
       subst h
-      exact ⟨rfl, rfl, rfl, List.prefix_append _ _, List.prefix_append _ _, List.prefix_refl _⟩
+      exact ⟨rfl, rfl, rfl, List.prefix_append _ _, Or.inr (List.suffix_cons _ _), by simp, List.prefix_refl _⟩
 
 /-! ### non-vacuity (nested) -/
 open Pydap.TableVal
@@ -289,17 +289,46 @@ def nlistingIs (r : Except Err (IterNest.Stream Val)) (expect : List (IterNest.I
     | .error _ => false
   | .error _ => false
 
-/-- the hypotheses of `C17_nested_normal_form_partial` are inhabited by a program with a nested and an
+/-- the hypotheses of `C17_nested_normal_form` are inhabited by a program with a nested and an
     outer filter, a column list, the child selection into the nested sequence and into its column -/
 example : wsHdr exHdr = true ∧ (∀ r ∈ exNSrc, wsRow exHdr r = true)
-    ∧ (IterNest.refRun true litVal ['s'] exHdr ⟨[], [], .table exHdr.names, []⟩ exNOps).isSome = true
+    ∧ (IterNest.refRun litVal ['s'] exHdr ⟨[], [], .table exHdr.names, []⟩ exNOps).isSome = true
     ∧ nlistingIs (IterNest.chain litVal (IterNest.mkIterData exNSrc ['s'] exHdr) exNOps)
         [.innerCol [], .innerCol [.str ['c']]] = true := by
   refine ⟨by decide, by decide, by decide, by decide⟩
 
-/-- `C17_nested_pure` is not vacuous: a nested filter step succeeds and extends both lists -/
+/-- `D["n"][["y"]][s.n.x>10][s.i>1]["y"][s.n.y!="b"]`: clauses AFTER the child selection into the nested
+    sequence (on a column that is no longer selected, on an outer column, and after the column selection) -/
+def exNOps2 : List Key :=
+  [.str ['n'], .list [['y']], .cond ⟨['s', '.', 'n', '.', 'x'], .gt, ['1', '0']⟩, .cond ⟨['s', '.', 'i'], .gt, ['1']⟩,
+   .str ['y'], .cond ⟨['s', '.', 'n', '.', 'y'], .ne, ['"', 'b', '"']⟩]
+
+/-- such a program is accepted by the reference, and the model lists the records of `n` filtered by the
+    clauses on `n` for the outer rows the outer clause keeps (the former finding's chain
+    `D["n"][CE("s.n.x>10")]` lists the filtered records, not `[]`) -/
+example : (IterNest.refRun litVal ['s'] exHdr ⟨[], [], .table exHdr.names, []⟩ exNOps2).isSome = true
+    ∧ nlistingIs (IterNest.chain litVal (IterNest.mkIterData exNSrc ['s'] exHdr) exNOps2)
+        [.innerCol [], .innerCol [.str ['c']]] = true
+    ∧ nlistingIs (IterNest.chain litVal (IterNest.mkIterData exNSrc ['s'] exHdr)
+        [.str ['n'], .cond ⟨['s', '.', 'n', '.', 'x'], .gt, ['1', '0']⟩])
+        [.inner [[.num 176, .str ['b']]], .inner [], .inner [[.num 480, .str ['c']]]] = true := by
+  refine ⟨by decide, by decide, by decide⟩
+
+/-- the hypotheses of `C17_nested_prefixes` are inhabited: the stream after `D["n"][["y"]]` and its
+    continuation by clauses and a column selection are both accepted, and the intermediate stream lists the
+    unfiltered `y` records -/
+example : (IterNest.refRun litVal ['s'] exHdr ⟨[], [], .table exHdr.names, []⟩ (exNOps2.take 2)).isSome = true
+    ∧ ((IterNest.refRun litVal ['s'] exHdr ⟨[], [], .table exHdr.names, []⟩ (exNOps2.take 2)).bind fun st =>
+        IterNest.refRun litVal ['s'] exHdr st (exNOps2.drop 2)).isSome = true
+    ∧ nlistingIs (IterNest.chain litVal (IterNest.mkIterData exNSrc ['s'] exHdr) (exNOps2.take 2))
+        [.inner [[.str ['a']], [.str ['b']]], .inner [], .inner [[.str ['c']]]] = true := by
+  refine ⟨by decide, by decide, by decide⟩
+
+/-- `C17_nested_pure` is not vacuous: a nested filter step succeeds, extends the filters at the back and
+    the maps at the front -/
 example : ∃ s', IterNest.getitem litVal (IterNest.mkIterData exNSrc ['s'] exHdr)
-    (.cond ⟨['s', '.', 'n', '.', 'x'], .gt, ['1', '0']⟩) = .ok s' ∧ s'.ifilter.length = 1 ∧ s'.imap.length = 2 :=
+    (.cond ⟨['s', '.', 'n', '.', 'x'], .gt, ['1', '0']⟩) = .ok s' ∧ s'.ifilter.length = 1 ∧
+      s'.imap = [.nest 1 ⟨0, .gt, .lit (.num 160)⟩, .fixNested [none, some 2, none]] :=
   ⟨_, rfl, rfl, rfl⟩
 
 end Nested
